@@ -233,7 +233,7 @@ impl Handler {
             }
         }
         let src = SimSource::new(&self.sim, self.items::<M>(&s), s.src_pending);
-        Ok(self.response_head(&s, OutStream { tail: src, req: None, h: self.clone(), id, alternate: false, tail_done: false, gap_us: s.gap_us, sleeping: None, held: None }))
+        Ok(self.response_head(&s, OutStream { tail: src, req: None, h: self.clone(), id, alternate: false, tail_done: false, gap_us: s.gap_us, sleeping: None, held: None, finished: false }))
     }
 
     pub async fn bidi<M: SimMsg>(&self, method: &'static str, req: Request<Streaming<M>>) -> Result<Response<OutStream<M>>, Status> {
@@ -265,7 +265,7 @@ impl Handler {
             },
         }
         let src = SimSource::new(&self.sim, self.items::<M>(&s), s.src_pending);
-        Ok(self.response_head(&s, OutStream { tail: src, req: keep, h: self.clone(), id, alternate: false, tail_done: false, gap_us: s.gap_us, sleeping: None, held: None }))
+        Ok(self.response_head(&s, OutStream { tail: src, req: keep, h: self.clone(), id, alternate: false, tail_done: false, gap_us: s.gap_us, sleeping: None, held: None, finished: false }))
     }
 }
 
@@ -281,12 +281,18 @@ pub struct OutStream<M: SimMsg> {
     gap_us: u64,
     sleeping: Option<Pin<Box<tokio::time::Sleep>>>,
     held: Option<Result<M, Status>>,
+    /// `None` has been returned; the scripted tail decides what a further poll does (it may block)
+    finished: bool,
 }
 
 impl<M: SimMsg> Stream for OutStream<M> {
     type Item = Result<M, Status>;
     fn poll_next(mut self: Pin<&mut Self>, cx: &mut Context<'_>) -> Poll<Option<Self::Item>> {
         let this = &mut *self;
+        if this.finished {
+            // an unfused stream polled after its end: whatever the scripted source does then
+            return Pin::new(&mut this.tail).poll_next(cx);
+        }
         if let Some(sl) = this.sleeping.as_mut() {
             match sl.as_mut().poll(cx) {
                 Poll::Pending => return Poll::Pending,
@@ -354,6 +360,7 @@ impl<M: SimMsg> Stream for OutStream<M> {
                         }
                     }
                 }
+                this.finished = true;
                 Poll::Ready(None)
             }
             Poll::Pending => Poll::Pending,
